@@ -125,7 +125,7 @@ func runCli(vec map[string]interface{}) map[string]interface{} {
 	if gBool(vec, "race") {
 		bin += "-race"
 	}
-	deadline := time.Duration(gIntD(vec, "deadline_s", 20)) * time.Second
+	deadline := time.Duration(gIntD(vec, "deadline_s", 20)) * time.Second * deadlineScale
 	outfile := gStr(vec, "outfile")
 	mainRun := false
 	invoke := func(args []interface{}, env map[string]interface{}, stdinName string, strace map[string]interface{}) (binResult, string) {
